@@ -58,7 +58,7 @@ Qed.
 (* ---------------------------------------------------------------- a well-formed layout *)
 Section Layout.
 Variables (m : list Z) (L : layout).
-Hypothesis Hread : t2_read (view m) = Ok (Some L).
+Hypothesis Hread : t2_reader (view m) = Ok (Some L).
 Hypothesis Hm4 : (length m mod 4 = 0)%nat.
 Hypothesis Hm16 : 16 <= len m.
 Hypothesis Hdend : l_dend L <= len m.
@@ -77,26 +77,29 @@ Notation off := (l_off L).
 Notation skip := (l_skip L).
 Notation dend := (l_dend L).
 
+Lemma Hread0 : t2_read em = Ok (Some L).
+Proof. apply t2_reader_inv, Hread. Qed.
+
 Lemma em_len : exists k, length em = (k * 4)%nat /\ len m <= len em.
 Proof. destruct (view_length m Hm16) as (k & H1 & H2 & _). exists k. split; [exact H1 | unfold len; lia]. Qed.
 Lemma em_tlv : exists l e, read_tlv em off skip = Ok (3, l, l_val L, e).
-Proof. destruct (t2_read_inv _ _ Hread) as (b13 & b14 & b15 & _ & _ & _ & _ & _ & _ & Hw & _).
+Proof. destruct (t2_read_inv _ _ Hread0) as (b13 & b14 & b15 & _ & _ & _ & _ & _ & _ & Hw & _).
   destruct (t2_walk_found _ _ _ _ _ _ _ _ _ _ _ Hw) as (_ & _ & l & e & H). eauto. Qed.
 Lemma em_tag : get em off = 3.
 Proof. destruct em_tlv as (l & e & H). apply read_tlv_inv in H. destruct H as (H & _). apply rd_inv in H. symmetry. apply H. Qed.
 Lemma cap_eq : l_cap L = get_capacity dend off skip.
-Proof. destruct (t2_read_inv _ _ Hread) as (b13 & b14 & b15 & _ & _ & _ & _ & _ & _ & _ & Hc & _). exact Hc. Qed.
-Lemma em_transfer c l' v' e' : agree_below (off + 1) em c -> read_tlv c off skip = Ok (3, l', v', e') ->
-  t2_read c = Ok (Some (set_val L v')).
-Proof. intros HA HR. apply (t2_read_transfer em c L l' v' e' Hread); [|exact HR].
+Proof. destruct (t2_read_inv _ _ Hread0) as (b13 & b14 & b15 & _ & _ & _ & _ & _ & _ & _ & Hc & _). exact Hc. Qed.
+Lemma em_transfer c l' v' e' : agree_below (off + 1) em c -> ndef_fits c (set_val L v') = true ->
+  read_tlv c off skip = Ok (3, l', v', e') -> t2_reader c = Ok (Some (set_val L v')).
+Proof. intros HA HF HR. apply (t2_reader_transfer em c L l' v' e' Hread0); [| exact HF | exact HR].
   apply (agree_below_le (off + 1)); [lia | exact HA]. Qed.
 
-(* the hypotheses of the generic analysis (Proofs/TlvPhases.v) hold with unit 4 and reader t2_read *)
+(* the hypotheses of the generic analysis (Proofs/TlvPhases.v) hold with unit 4 and reader t2_reader *)
 Ltac generic := first [exact em_tag | exact cap_eq | exact em_transfer | exact Hs1 | exact Hs23 | exact Hoff1 | lia | eassumption].
-Ltac gen lemma k4 := eapply (lemma em L 4%nat k4 t2_read); generic.
+Ltac gen lemma k4 := eapply (lemma em L 4%nat k4 t2_reader); generic.
 
 Lemma t2_caches (d : list Z) : len d <= l_cap L ->
-  caches_ok em L 4 t2_read (t2_phases L d) d True.
+  caches_ok em L 4 t2_reader (t2_phases L d) d True.
 Proof.
   intro Hcap. destruct em_len as (k4 & Hk4 & Hmle). unfold t2_phases.
   destruct (Z.ltb_spec (len d) 255) as [Hd|Hd]; cbn [app].
@@ -104,7 +107,7 @@ Proof.
   - destruct (straddle off) eqn:Es.
     + cbn [app]. gen caches_split k4.
     + cbn [app].
-      assert (C : caches_ok em L 4 t2_read [ph_len0 L; ph_data L d; fun c => do c' <- ph_len_low L d c; ph_len_ff L c'] d (one_unit 4 off))
+      assert (C : caches_ok em L 4 t2_reader [ph_len0 L; ph_data L d; fun c => do c' <- ph_len_low L d c; ph_len_ff L c'] d (one_unit 4 off))
         by (gen caches_joint k4).
       destruct C as (cs & cf & H1 & H2 & H3 & H4 & H5 & H6).
       exists cs, cf. repeat (split; [assumption|]). intros _. apply H6.
@@ -195,8 +198,8 @@ Proof.
   exists c3. split; [exact H3 | eapply touch_trans4; eassumption].
 Qed.
 
-Lemma hdr0_t2_read c : hdr0 em L c -> t2_read c = Ok (Some (set_val L [])).
-Proof. intro H. destruct em_len as (k4 & Hk4 & Hmle). gen hdr0_read k4. Qed.
+Lemma hdr0_t2_reader c : 0 <= l_cap L -> hdr0 em L c -> t2_reader c = Ok (Some (set_val L [])).
+Proof. intros Hc0 H. destruct em_len as (k4 & Hk4 & Hmle). gen hdr0_read k4. Qed.
 
 (* the complete write: commands, final memory as READ shows it, and the memory after any cut *)
 Lemma t2_write_result (d : list Z) : l_wr L = true -> len d <= l_cap L ->
@@ -205,7 +208,7 @@ Lemma t2_write_result (d : list Z) : l_wr L = true -> len d <= l_cap L ->
        16 <= fst w /\ fst w + len (snd w) <= len m /\ len (snd w) = 4 /\ fst w mod 4 = 0 /\
        exists x, fst w <= x < fst w + 4 /\ ndef_area L x = true) /\
     view (apply_ws m (chain_cmds 4 em cs)) = cf /\ len (apply_ws m (chain_cmds 4 em cs)) = len m /\
-    touch L em cf /\ t2_read cf = Ok (Some (set_val L d)) /\
+    touch L em cf /\ t2_reader cf = Ok (Some (set_val L d)) /\
     (forall j, let x := view (apply_ws m (firstn j (chain_cmds 4 em cs))) in x = em \/ hdr0 em L x \/ x = cf).
 Proof.
   intros Hwr Hcap. destruct em_len as (k4 & Hk4 & Hmle).
@@ -226,13 +229,13 @@ Set Default Proof Using "Type".
 
 (* ---------------------------------------------------------------- well-formed = the section's hypotheses *)
 Lemma wf_layout_inv m : wf_layout m -> exists L,
-  t2_read (view m) = Ok (Some L) /\ (length m mod 4 = 0)%nat /\ 16 <= len m /\ l_rd L = true /\ l_wr L = true /\
+  t2_reader (view m) = Ok (Some L) /\ (length m mod 4 = 0)%nat /\ 16 <= len m /\ l_rd L = true /\ l_wr L = true /\
   l_dend L <= len m /\ l_hw L <= l_off L /\ 16 <= l_off L /\ l_off L + 1 < l_dend L /\
   in_skip (l_skip L) (l_off L) = false /\ in_skip (l_skip L) (l_off L + 1) = false /\
   (255 <= l_cap L -> in_skip (l_skip L) (l_off L + 2) = false /\ in_skip (l_skip L) (l_off L + 3) = false).
 Proof.
   unfold wf_layout, wf_layoutb. intro H.
-  destruct (t2_read (view m)) as [[L|]| | |] eqn:E; try (rewrite !andb_false_r in H; discriminate).
+  destruct (t2_reader (view m)) as [[L|]| | |] eqn:E; try (rewrite !andb_false_r in H; discriminate).
   exists L. split; [reflexivity|].
   assert (Hn : Nat.eqb (length m mod 4) 0 = true) by lia. apply Nat.eqb_eq in Hn.
   repeat match goal with H : _ && _ = true |- _ => apply andb_true_iff in H; destruct H end.
@@ -245,7 +248,7 @@ Qed.
 
 (* the section's hypotheses as one predicate, and the main results in that form *)
 Definition wfL (m : list Z) (L : layout) : Prop :=
-  t2_read (view m) = Ok (Some L) /\ (length m mod 4 = 0)%nat /\ 16 <= len m /\ l_rd L = true /\ l_wr L = true /\
+  t2_reader (view m) = Ok (Some L) /\ (length m mod 4 = 0)%nat /\ 16 <= len m /\ l_rd L = true /\ l_wr L = true /\
   l_dend L <= len m /\ l_hw L <= l_off L /\ 16 <= l_off L /\ l_off L + 1 < l_dend L /\
   in_skip (l_skip L) (l_off L) = false /\ in_skip (l_skip L) (l_off L + 1) = false /\
   (255 <= l_cap L -> in_skip (l_skip L) (l_off L + 2) = false /\ in_skip (l_skip L) (l_off L + 3) = false).
@@ -260,7 +263,7 @@ Lemma wfL_write_result m L d : wfL m L -> len d <= l_cap L ->
        16 <= fst w /\ fst w + len (snd w) <= len m /\ len (snd w) = 4 /\ fst w mod 4 = 0 /\
        exists x, fst w <= x < fst w + 4 /\ ndef_area L x = true) /\
     view (apply_ws m (chain_cmds 4 (view m) cs)) = cf /\ len (apply_ws m (chain_cmds 4 (view m) cs)) = len m /\
-    touch L (view m) cf /\ t2_read cf = Ok (Some (set_val L d)) /\
+    touch L (view m) cf /\ t2_reader cf = Ok (Some (set_val L d)) /\
     (forall j, let x := view (apply_ws m (firstn j (chain_cmds 4 (view m) cs))) in x = view m \/ hdr0 (view m) L x \/ x = cf).
 Proof. intros H Hd. use_wfL H. eapply t2_write_result; eassumption. Qed.
 Lemma wfL_chain_result m L phs cs : wfL m L -> steps (view m) phs cs -> Forall (fun c => length c = length (view m)) cs ->
@@ -278,7 +281,7 @@ Lemma wfL_touch_frame m L cf m' : wfL m L -> touch L (view m) cf -> view m' = cf
 Proof. intros H. use_wfL H. eapply touch_frame; eassumption. Qed.
 Lemma wfL_format_spec m L wipe : wfL m L -> exists c, ph_format L wipe (view m) = Ok c /\ touch L (view m) c.
 Proof. intros H. use_wfL H. eapply ph_format_spec; eassumption. Qed.
-Lemma wfL_hdr0_read m L c : wfL m L -> hdr0 (view m) L c -> t2_read c = Ok (Some (set_val L [])).
-Proof. intros H. use_wfL H. eapply hdr0_t2_read; eassumption. Qed.
+Lemma wfL_hdr0_read m L c : wfL m L -> 0 <= l_cap L -> hdr0 (view m) L c -> t2_reader c = Ok (Some (set_val L [])).
+Proof. intros H. use_wfL H. eapply hdr0_t2_reader; eassumption. Qed.
 Lemma wfL_cap_eq m L : wfL m L -> l_cap L = get_capacity (l_dend L) (l_off L) (l_skip L).
 Proof. intros H. use_wfL H. eapply cap_eq; eassumption. Qed.
